@@ -259,7 +259,7 @@ func c20radius(r *Rng, near int, xd *big.Int) []byte {
 	return le
 }
 
-func c20payload(r *Rng, ptype uint16, radius []byte) []byte {
+func c20payload(r *Rng, ptype uint16, radius []byte, count uint16) []byte {
 	var b []byte
 	switch ptype {
 	case pingext.ClientInfo:
@@ -269,7 +269,7 @@ func c20payload(r *Rng, ptype uint16, radius []byte) []byte {
 		p := pingext.NewBasicRadiusPayload(radius)
 		b, _ = p.MarshalSSZ()
 	case pingext.HistoryRadius:
-		p := pingext.NewHistoryRadiusPayload(radius, uint16(r.Intn(500)))
+		p := pingext.NewHistoryRadiusPayload(radius, count)
 		b, _ = p.MarshalSSZ()
 	case pingext.Error:
 		b = pingext.GetErrorPayloadBytes(uint16(r.Intn(4)))
@@ -363,15 +363,103 @@ func c20case(c *Ctx, r *Rng, keys []string) {
 		}
 		ops = append(ops, fmt.Sprintf("g~%s~%s~%d~%d", src, hx(ckey), nc, nk))
 	}
+	// what each node last reported: the next report of a node keeps or changes the ephemeral header count and keeps or
+	// changes the radius independently (a HistoryRadius report with the same count and a new radius must still update the cache)
+	lastCount := map[enode.ID]uint16{}
+	lastRadius := map[enode.ID][]byte{}
+	report := func(n *enode.Node, ptype uint16, pong bool, clean bool) {
+		near := enode.LogDist(n.ID(), enode.ID(cid))
+		xd := new(big.Int).Xor(new(big.Int).SetBytes(n.ID().Bytes()), new(big.Int).SetBytes(cid[:]))
+		radius := c20radius(r, near, xd)
+		if prev, ok := lastRadius[n.ID()]; ok && r.Intn(5) == 0 {
+			radius = prev // same radius, possibly a new count
+		}
+		count, seen := lastCount[n.ID()]
+		if !seen || r.Intn(4) == 0 {
+			count = uint16(r.Pick([]int{0, 0, 1, 7, 499, 65535}))
+		}
+		lastCount[n.ID()], lastRadius[n.ID()] = count, radius
+		payload := c20payload(r, ptype, radius, count)
+		if clean { // an undamaged payload of that type
+			switch ptype {
+			case pingext.ClientInfo:
+				pl := pingext.NewClientInfoAndCapabilitiesPayload(radius, []uint16{0, 65535})
+				payload, _ = pl.MarshalSSZ()
+			case pingext.BasicRadius:
+				pl := pingext.NewBasicRadiusPayload(radius)
+				payload, _ = pl.MarshalSSZ()
+			case pingext.HistoryRadius:
+				pl := pingext.NewHistoryRadiusPayload(radius, count)
+				payload, _ = pl.MarshalSSZ()
+			}
+		}
+		if !pong {
+			m := &portalwire.Ping{EnrSeq: uint64(r.Intn(2)), PayloadType: ptype, Payload: payload}
+			b, err := m.MarshalSSZ()
+			if err != nil {
+				return
+			}
+			msg := append([]byte{portalwire.PING}, b...)
+			if !clean && r.Intn(40) == 0 {
+				msg = msg[:1+r.Intn(len(msg)-1)]
+			}
+			ops = append(ops, fmt.Sprintf("pi~%s~%s", hx(hEnrBytes(n)), hx(msg)))
+		} else {
+			m := &portalwire.Pong{EnrSeq: uint64(r.Intn(2)), PayloadType: ptype, Payload: payload}
+			b, err := m.MarshalSSZ()
+			if err != nil {
+				return
+			}
+			msg := append([]byte{portalwire.PONG}, b...)
+			if !clean {
+				switch r.Intn(40) {
+				case 0:
+					msg = msg[:r.Intn(len(msg))]
+				case 1:
+					msg[0] = portalwire.PING
+				}
+			}
+			ops = append(ops, fmt.Sprintf("po~%s~%s", hx(hEnrBytes(n)), hx(msg)))
+		}
+	}
+	// the payload types of this network that carry a radius
+	var radiusTypes []uint16
+	for _, t := range supported {
+		if t == pingext.ClientInfo || t == pingext.BasicRadius || t == pingext.HistoryRadius {
+			radiusTypes = append(radiusTypes, t)
+		}
+	}
+	// burst: one node reports 2..6 times in a row, cycling through every radius-carrying type of the network, on both paths
+	burst := func() {
+		if len(nodes) == 0 {
+			return
+		}
+		n := nodes[r.Intn(len(nodes))]
+		c.Count("report_burst")
+		start := r.Intn(len(radiusTypes))
+		sameType := r.Intn(3) == 0 // e.g. HistoryRadius several times in a row
+		for j, k := 0, 2+r.Intn(5); j < k; j++ {
+			t := radiusTypes[(start+j)%len(radiusTypes)]
+			if sameType {
+				t = radiusTypes[len(radiusTypes)-1]
+			}
+			report(n, t, r.Bool(), true)
+			if r.Intn(6) == 0 {
+				gossip()
+			}
+		}
+	}
 	for i := 0; i < nops; i++ {
+		if r.Intn(5) == 0 {
+			burst()
+			continue
+		}
 		var n *enode.Node
 		if len(nodes) > 0 && r.Intn(10) != 0 {
 			n = nodes[r.Intn(len(nodes))]
 		} else {
 			n = outsider()
 		}
-		near := enode.LogDist(n.ID(), enode.ID(cid))
-		xd := new(big.Int).Xor(new(big.Int).SetBytes(n.ID().Bytes()), new(big.Int).SetBytes(cid[:]))
 		switch k := r.Intn(40); {
 		case k < 34:
 			ptype := supported[r.Intn(len(supported))]
@@ -381,33 +469,7 @@ func c20case(c *Ctx, r *Rng, keys []string) {
 			case 1, 2, 3, 4:
 				ptype = supported[0]
 			}
-			payload := c20payload(r, ptype, c20radius(r, near, xd))
-			if r.Bool() {
-				m := &portalwire.Ping{EnrSeq: uint64(r.Intn(2)), PayloadType: ptype, Payload: payload}
-				b, err := m.MarshalSSZ()
-				if err != nil {
-					continue
-				}
-				msg := append([]byte{portalwire.PING}, b...)
-				if r.Intn(40) == 0 {
-					msg = msg[:1+r.Intn(len(msg)-1)]
-				}
-				ops = append(ops, fmt.Sprintf("pi~%s~%s", hx(hEnrBytes(n)), hx(msg)))
-			} else {
-				m := &portalwire.Pong{EnrSeq: uint64(r.Intn(2)), PayloadType: ptype, Payload: payload}
-				b, err := m.MarshalSSZ()
-				if err != nil {
-					continue
-				}
-				msg := append([]byte{portalwire.PONG}, b...)
-				switch r.Intn(40) {
-				case 0:
-					msg = msg[:r.Intn(len(msg))]
-				case 1:
-					msg[0] = portalwire.PING
-				}
-				ops = append(ops, fmt.Sprintf("po~%s~%s", hx(hEnrBytes(n)), hx(msg)))
-			}
+			report(n, ptype, r.Bool(), false)
 		case k < 36:
 			ops = append(ops, "del~"+hx(hEnrBytes(n)))
 		case k == 36 && r.Intn(3) == 0:
@@ -429,7 +491,7 @@ func runC20(c *Ctx) {
 		c20replay(c, readReplayCases(c.Args[1]))
 		return
 	}
-	n := 500
+	n := 400
 	if c.Tier == "thorough" {
 		n = 8000
 	}
